@@ -132,6 +132,38 @@ def _fingerprint(unit, locs):
     return txt, order
 
 
+def deep_fingerprint(unit, locs):
+    """Digest of a whole (compound) statement with locals abstracted: 'is this very statement, body included, in the reference?'"""
+    import hashlib
+
+    h = _clone(unit)
+    for n in ast.walk(h):
+        if isinstance(n, ast.Name) and n.id in locs:
+            n.id = "_"
+        elif isinstance(n, ast.arg) and n.arg in locs:
+            n.arg = "_"
+        elif isinstance(n, ast.ExceptHandler) and n.name in locs:
+            n.name = "_"
+    try:
+        txt = ast.unparse(h)
+    except Exception:
+        txt = ast.dump(h)
+    return hashlib.sha1(txt.encode()).hexdigest()[:12]
+
+
+def exact_hash(fnode):
+    """Digest of the function's AST as written (names included, positions excluded): equal to the reference's digest iff the
+    function is untouched, in which case every normalisation is the identity and can be skipped."""
+    import hashlib
+
+    return hashlib.sha1(ast.dump(fnode, annotate_fields=False, include_attributes=False).encode()).hexdigest()[:16]
+
+
+def deep_set(fnode):
+    locs = local_names(fnode)
+    return sorted({deep_fingerprint(n, locs) for n in ast.walk(fnode) if isinstance(n, (ast.For, ast.While, ast.If, ast.With, ast.Try)) and n is not fnode})
+
+
 def describe(fnode):
     locs = local_names(fnode)
     return [list(_fingerprint(u_, locs)) for u_ in _units(fnode)]
@@ -143,6 +175,8 @@ def build_reference(prog):
         if fi.module.kind not in ("py", "pyx"):
             continue
         ref[q] = describe(fi.node)
+        ref["#deep:" + q] = deep_set(fi.node)
+        ref["#hash:" + q] = exact_hash(fi.node)
     # module-level names (a scalar constant that is new w.r.t. this list is folded back into its uses, see sa/derefactor.py)
     for mname, m in prog.modules.items():
         if m.kind not in ("py", "pyx"):
@@ -153,6 +187,15 @@ def build_reference(prog):
                 if isinstance(n, ast.Name) and isinstance(n.ctx, ast.Store):
                     names.add(n.id)
         ref["#globals:" + mname] = sorted(names)
+        cnames = set()
+        for c_ in ast.walk(m.tree):
+            if isinstance(c_, ast.ClassDef):
+                for s_ in c_.body:
+                    for n in ast.walk(s_) if isinstance(s_, (ast.Assign, ast.AnnAssign, ast.AugAssign)) else []:
+                        if isinstance(n, ast.Name) and isinstance(n.ctx, ast.Store):
+                            cnames.add("%s.%s" % (c_.name, n.id))
+        ref["#classattrs:" + mname] = sorted(cnames)
+        ref["#classes:" + mname] = sorted(c_.name for c_ in ast.walk(m.tree) if isinstance(c_, ast.ClassDef))
     return ref
 
 
@@ -207,6 +250,13 @@ def apply_mapping(fnode, mapping):
     if not mapping:
         return 0
     locs = local_names(fnode)
+    # a local is never renamed *into* a parameter's name: a local
+    # that was un-shadowed from a parameter (`for chrom, chrom_regions in ...` where the reference re-used `regions`) stays as it is
+    a_ = fnode.args
+    params = {x.arg for x in a_.posonlyargs + a_.args + a_.kwonlyargs} | ({a_.vararg.arg} if a_.vararg else set()) | ({a_.kwarg.arg} if a_.kwarg else set())
+    mapping = {x: y for x, y in mapping.items() if not (y in params and x not in params)}
+    if not mapping:
+        return 0
     taken = set(mapping.values())
     final = dict(mapping)
     for x in locs:
@@ -243,6 +293,8 @@ def normalise(prog):
         d = ref.get(q)
         if not d:
             continue
+        if ref.get("#hash:" + q) == exact_hash(fi.node):
+            continue  # untouched
         try:
             m = mapping_for(fi.node, d)
         except Exception:
